@@ -1009,6 +1009,40 @@ def tp_in_domain(params):
     return True
 
 
+def rfc_tparams_strict(data):
+    """RFC 9000 section 18 walked strictly: every (id, length, value) must lie inside the input and a known
+    parameter's value must fill its declared length exactly.  True = well-formed."""
+    kinds = {pid: kind for pid, name, kind in _params_table()}
+    pos = 0
+    while pos < len(data):
+        r = rfc_varint_decode(data, pos)
+        if r is None:
+            return False
+        pid, pos = r
+        r = rfc_varint_decode(data, pos)
+        if r is None:
+            return False
+        ln, pos = r
+        if pos + ln > len(data):
+            return False
+        body = data[pos:pos + ln]
+        pos += ln
+        kind = kinds.get(pid)
+        if kind == 0:
+            r = rfc_varint_decode(body)
+            if r is None or r[1] != len(body):
+                return False
+        elif kind == 2 and body:
+            return False
+        elif kind == 3:
+            if len(body) < 41 or len(body) != 41 + body[24]:
+                return False
+        elif kind == 4:
+            if len(body) < 4 or len(body) % 4 or any(body[i:i + 4] == bytes(4) for i in range(0, len(body), 4)):
+                return False
+    return True
+
+
 def tp_oracle(case):
     from aioquic.buffer import Buffer
     from aioquic.quic import packet
@@ -1033,12 +1067,18 @@ def tp_oracle(case):
         return None
     data = B(op[1])
     b = Buffer(data=data)
+    strict = rfc_tparams_strict(data)
     try:
         params = packet.pull_quic_transport_parameters(b)
     except ValueError:
+        if strict:
+            return ("pull_quic_transport_parameters rejects well-formed parameters", {"codec": "tparams", "rule": "spurious_error"})
         return None
     except Exception as e:
         return ("pull_quic_transport_parameters raised %s" % type(e).__name__, {"codec": "tparams", "rule": "exception", "exception": type(e).__name__})
+    if not strict:
+        return ("pull_quic_transport_parameters accepted a parameter whose value does not end at its declared length",
+                {"codec": "tparams", "rule": "nesting"})
     b2 = Buffer(capacity=len(data) + 4096)
     packet.push_quic_transport_parameters(b2, params)
     again = packet.pull_quic_transport_parameters(Buffer(data=b2.data))
